@@ -264,8 +264,14 @@ func (g *Gen) genCompLine(p *ProgDef) (string, []string) {
 		line += " " + last
 		args = []string{"./prog", last, prev}
 	}
-	if g.pct(5) {
+	switch {
+	case g.pct(5):
 		args = []string{}
+	case g.pct(8) && len(args) == 3:
+		// a caller that hands Parse only the program name and the current word
+		args = args[:2]
+	case g.pct(3) && len(args) == 3:
+		args = args[:1]
 	}
 	if g.pct(8) {
 		// white space other than single blanks: tabs, runs, leading white space, white-space-only
